@@ -1124,6 +1124,18 @@ func runC12(r *Runner) string {
 			copy(s, base[:r.rng.Intn(4)])
 			probe(s, "tpl/random")
 		}
+		// the same opcodes and the same data, the data pushed in another way: OP_PUSHDATA1/2/4 instead of the direct
+		// push (the template is a byte pattern, not a sequence of script elements)
+		hl := c12HashLen(kind)
+		for pos := 0; pos+1+hl <= len(base); pos++ {
+			if int(base[pos]) != hl {
+				continue
+			}
+			for _, pre := range [][]byte{{0x4c, byte(hl)}, {0x4d, byte(hl), 0}, {0x4e, byte(hl), 0, 0, 0}} {
+				m := append(append(append([]byte{}, base[:pos]...), pre...), base[pos+1:]...)
+				probe(m, "tpl/non-minimal-push")
+			}
+		}
 		// the other kinds' scripts
 		for _, k2 := range c12Kinds {
 			probe(c12RefTemplate(k2, r.bytesN(c12HashLen(k2))), "tpl/cross")
